@@ -374,6 +374,16 @@ def run_restart_case(case, timeout=60):
                 except Exception:
                     pass
         obs["live_at_restart"] = sorted(live)
+        # which job was inside aio_run when the scheduler died (mid-launch phases)
+        for f in ("spawned", "pid_opened"):
+            if (ws / f).exists():
+                try:
+                    opid = int((ws / f).read_text())
+                    obs["orphan_pid"] = opid
+                    wait_for(lambda: any(pid == opid for _, _, pid, _ in read_log(log)) or not pid_alive(opid), 15)
+                    obs["orphan_x"] = next((x for k, x, pid, _ in read_log(log) if pid == opid), None)
+                except Exception:
+                    pass
         tokdir0 = ws / "xpmwork" / "tokens" / "xvtok.counter"
         obs["token_files_at_restart"] = len(list(tokdir0.glob("*.token"))) if tokdir0.exists() else 0
         # ---- second run of the same experiment
